@@ -11,7 +11,7 @@ func init() {
 	register(&Property{
 		ID:        "C02",
 		Technique: "static analysis: who-may-write enumeration of raftLog.committed/applied with per-writer guard obligations (truth table over path conditions), argument provenance on canonical terms, expression-shape checks (isUpToDate, matchBuf selection), ORDER/FOLLOW on the Ready hand-out driver",
-		Explanation: "Decides the mechanisms of log matching, commit monotonicity and the apply cursor: (L1) every store to raftLog.committed in the module is one of the accepted shapes (commitTo under committed < tocommit <= lastIndex; restore from a snapshot strictly ahead of the commit index; loadState within [committed, lastIndex]; initialisation of a fresh log); (L2) commit-by-counting commits only an index whose entry has the leader's current term, selected as the quorum-th largest voter Match; (L3) a follower never appends below its commit index: handleAppendEntries short-cuts m.Index < committed, maybeAppend appends only after matchTerm and from a conflict index above committed, the appended suffix starts at the conflict; (L4) votes go only to up-to-date logs and isUpToDate has the Raft formula; (L5) snapshots only move forward; (L6) the applied cursor is what was handed out (appliedCursor of the Ready; last committed entry else snapshot index), stored only within [applied, committed], nextEnts slices (applied, committed], and the fork's StepNode hands out a Ready only when the previous one was advanced.",
+		Explanation: "Decides the mechanisms of log matching, commit monotonicity and the apply cursor: (L1) every store to raftLog.committed in the module is one of the accepted shapes (commitTo under committed < tocommit <= lastIndex; restore from a snapshot strictly ahead of the commit index; loadState within [committed, lastIndex]; initialisation of a fresh log); (L2) commit-by-counting commits only an index whose entry has the leader's current term, selected as the quorum-th largest voter Match; (L3) a follower never appends below its commit index: handleAppendEntries short-cuts m.Index < committed, maybeAppend appends only after matchTerm and from a conflict index above committed, the appended suffix starts at the conflict; (L4) votes go only to up-to-date logs and isUpToDate has the Raft formula; (L5) snapshots only move forward; (L6) the applied cursor is what was handed out (appliedCursor of the Ready; last committed entry else snapshot index), stored only within [applied, committed], nextEnts slices (applied, committed], and the fork's StepNode hands out a Ready only when the previous one was advanced. (L9) leadership needs a quorum of real votes (the C01-V4 obligations, because two leaders in one term append different entries at one index and term).",
 		NotDecided: "State Machine Safety itself (a theorem over schedules), unstable.truncateAndAppend arithmetic, storage back-ends returning wrong entries (C03), that the panics used as assertions never fire.",
 		Assumptions: []string{"calls to Panicf do not return", "path conditions as in C01"},
 		Run: runC02,
@@ -234,4 +234,35 @@ func runC02(c *Ctx) {
 	if u := c.unit("C02-L6", "raft.(*node).Advance"); u != nil {
 		r.Order("C02-L6", u, an.Store("raft.node.needAdvance"), []an.M{an.Call("raft.(*raftLog).appliedTo")}, an.OrderOpts{Assume: "appliedI != 0", Min: 1})
 	}
+}
+
+func init() {
+	old := registry["C02"].Run
+	registry["C02"].Run = func(c *Ctx) { old(c); c02L9(c) }
+}
+
+// L9: two leaders in one term append different entries at the same index and term, so log matching needs election
+// safety's counting rule: a candidate becomes leader only on a quorum of real votes. Same obligations as C01-V4,
+// reported under this id as well.
+func c02L9(c *Ctx) {
+	r := c.R
+	r.Clause("C02-L9", "leadership (and with it the right to append) needs a quorum of real votes: same obligations as C01-V4")
+	sub := an.NewReport("C02")
+	runC01(&Ctx{P: c.P, W: c.W, R: sub, Tier: c.Tier})
+	n := 0
+	for _, ob := range sub.Obligations {
+		if ob.Rule != "C01-V4" {
+			continue
+		}
+		n++
+		switch ob.Status {
+		case "ok":
+			r.Ok("C02-L9", ob.Construct, ob.Pos, ob.Detail)
+		case "VIOLATION":
+			r.Bad("C02-L9", ob.Construct, ob.Pos, ob.Detail)
+		default:
+			r.Unknown("C02-L9", ob.Construct, ob.Pos, ob.Detail)
+		}
+	}
+	r.Min("C02-L9", n, 5, "C01-V4 obligations")
 }
